@@ -69,6 +69,11 @@ def _scenario(rng: random.Random, method_hint: int | None = None) -> dict:
                 smp["options"] = {"a": 0.0, "b": 0.5}
             elif smp["method"] == "norm":
                 smp["options"] = {"scale": 0.3}
+            elif smp["method"] in ("lhs", "sobol", "halton"):
+                # engine options: unscrambled sequences (a Latin hypercube still draws its cell permutations) and
+                # optimised designs draw from the engine's generator all the same
+                smp["options"] = rng.choice([{"scramble": False}, {"scramble": False}, {"scramble": True}] +
+                                            ([{"strength": 1}, {"optimization": "random-cd"}] if smp["method"] == "lhs" else []))
     if ns > 1:
         cfg["gradient"]["samplers"] = [rng.randrange(ns) for _ in range(nv)]
     cfg["gradient"]["seed"] = rng.choice([rng.randint(1, 10**6), [rng.randint(1, 1000), rng.randint(1, 1000)]])
@@ -192,7 +197,9 @@ def execute(scn: dict) -> dict:
     maskA = model.mask_of(cfgA)
     assign = cfgA["gradient"].get("samplers")
     used = {0} if assign is None else {a for a, m in zip(assign, maskA) if m and a >= 0}
-    continuous = any(cfgA["samplers"][i]["method"] in ("uniform", "norm", "truncnorm", "lhs") for i in used)
+    continuous = any(cfgA["samplers"][i]["method"] in ("uniform", "norm", "truncnorm") or
+                     (cfgA["samplers"][i]["method"] == "lhs" and (cfgA["samplers"][i].get("options") or {}).get("scramble", True))
+                     for i in used)  # (an unscrambled hypercube only permutes cell centres: few points may coincide)
     if ngrad and continuous:
         alt = copy.deepcopy(A)
         s = alt["configs"][0]["gradient"]["seed"]
